@@ -19,7 +19,8 @@ type Multi struct {
 // NewLoader returns a new multi loader. The order of the loaders passed as parameters
 // will define the order in which templates are loaded.
 func NewLoader(loaders ...jet.Loader) *Multi {
-	return &Multi{loaders: loaders}
+	// a copy: the caller's slice may be shared with other stacks, and AddLoaders appends
+	return &Multi{loaders: append([]jet.Loader(nil), loaders...)}
 }
 
 // AddLoaders adds the passed loaders to the list of loaders.
